@@ -146,7 +146,7 @@ SUITES = {
     'C07': [('operators_and_calls', _types, 'the typer (unification, Autocoerce insertion)',
              'every binary/comparison/unary operator x 15 operand types (identical pairs; 6 random mixed pairs per operator); calls with 0..3 parameters: exact, one argument dropped, one added, one mistyped, & missing; literal operands; all 169 `as` casts; 12 bit casts (pointer to pointer, identical type, integer/pointer mixes, array-view pointers); sized-array pointers; assignments through member/element chains (about 729 programs)'),
             ('typing_of_members_and_addresses', _types_extra, 'typer: typing of structure literal members, of assignments through member/element chains, of address depth',
-             '30 single programs, one obligation each: excess, exact and missing addresses on arguments, initial values and assigned values (11); a structure literal member of another type (2), an excess address on an argument, well-typed assignments through member/element/pointer chains (6: element of an array member, member of an array element, through a pointer member, word into an array-of-words member, member of such an element, whole array member), ill-typed ones that must be E504 (4), an array view assigned to an array element, through a pointer, and to/through members (6: must be an error - E504 where the member path is involved -, not a failed assertion)')],
+             '34 single programs, one obligation each: index/member steps on something that is neither array nor structure (3); an array view behind a pointer assigned to an element (1); excess, exact and missing addresses on arguments, initial values and assigned values (11); a structure literal member of another type (2), an excess address on an argument, well-typed assignments through member/element/pointer chains (6: element of an array member, member of an array element, through a pointer member, word into an array-of-words member, member of such an element, whole array member), ill-typed ones that must be E504 (4), an array view assigned to an array element, through a pointer, and to/through members (6: must be an error - E504 where the member path is involved -, not a failed assertion)')],
     'C08': [('mutating_uses', _mut, 'the whole-program consequence; the typer',
              'about 110 programs: 7 kinds of target x (assignment, address handed to a writing callee in 15 expression/statement contexts incl. index expressions); the same call WITHOUT & in each context (E513); whole-aggregate copies (E531-E533); local slices; elements/members of constants and of by-value word parameters; & missing on pointer arguments')],
     'C09': [('literal_range_lints', _literals, 'alpha parser (minus folding, signed/bit split), typer literal typing',
